@@ -490,6 +490,9 @@ pub fn val_summary(v: &Val, depth: u32) -> J {
             if let Some(t) = &a.tag {
                 o.set("tag", J::s(t.to_string()));
             }
+            if !a.segs.is_empty() {
+                o.set("segs", J::Arr(a.segs.iter().map(|s| J::Arr(vec![J::i(s.0 as i128), J::i(s.1 as i128), J::s(s.2.to_string())])).collect()));
+            }
             o
         }
         other => J::s(other.short()),
